@@ -26,6 +26,7 @@ from dataclasses import dataclass
 from typing import Annotated, Any, Optional, Union
 
 from geneticengine.grammar.decorators import abstract, weight
+from geneticengine.grammar.metahandlers.base import MetaHandlerGenerator
 from geneticengine.grammar.grammar import extract_grammar
 from geneticengine.grammar.metahandlers.dependent import Dependent
 from geneticengine.grammar.metahandlers.floats import FloatList, FloatRange
@@ -99,7 +100,23 @@ def make_mh(mh):
         return IntervalRange(mh[1], mh[2], mh[3])
     if k == "Dep":
         return Dependent(mh[1], _dep_callable(mh[2]))
+    if k == "Pass":
+        return PassThrough()
     raise ValueError(mh)
+
+
+class PassThrough(MetaHandlerGenerator):
+    """A user-written refinement that accepts everything and generates through the normal recursion: the way the
+    library's own test grammars wrap abstract types (`Annotated[Expr, Dependent(..)]`) without restricting them."""
+
+    def validate(self, v) -> bool:
+        return True
+
+    def generate(self, random, grammar, base_type, rec, dependent_values, **kwargs):
+        return rec(base_type)
+
+    def __repr__(self):
+        return "PassThrough()"
 
 
 class OrderMeta(ABCMeta):
@@ -827,6 +844,20 @@ def family_shapes():
             "considered": ["L", "M", "N"],
         },
     )
+    # S30 abstract types declared inside Annotated[...] with a refinement that does not restrict them (the shape of
+    # tests/representations/dependent_types_context_test.py), one of them a nested abstract layer
+    out.append(
+        {
+            "name": "S30:annotated-abstract",
+            "abstract": [["A", None, "ABC"], ["B", "A", "decorator"]],
+            "prods": [
+                ["L", "A", None, [["v", IR01]]],
+                ["M", "B", None, [["w", "bool"]]],
+                ["P", "A", None, [["x", ["ann", ref("A"), ["Pass"]]], ["y", ["ann", ref("B"), ["Pass"]]]]],
+            ],
+            "start": "A",
+        },
+    )
     # S16 union of two abstract types of different minimum depth
     out.append(
         {
@@ -896,7 +927,7 @@ def finite_family(tier: str):
     fa = finite_alphabet()
     out = list(family_one_abstract(fa, 1 if tier == "quick" else 2, "F1"))
     out += [s for s in family_shapes() if s["name"].split(":")[0] in
-            ("S1", "S2", "S3", "S4", "S5", "S6", "S7", "S8", "S9", "S10", "S12", "S13", "S14", "S15", "S16", "S17", "S18", "S19", "S20", "S22", "S23", "S24", "S26", "S27", "S28", "S29")]
+            ("S1", "S2", "S3", "S4", "S5", "S6", "S7", "S8", "S9", "S10", "S12", "S13", "S14", "S15", "S16", "S17", "S18", "S19", "S20", "S22", "S23", "S24", "S26", "S27", "S28", "S29", "S30")]
     out += list(family_two_abstract(finite_alphabet, "F2"))
     out += list(family_nested(finite_alphabet, "F3"))
     return out
